@@ -225,8 +225,8 @@ impl Monitor for C17 {
         N_DIRECTED
             + match t {
                 Tier::Tiny => 12,
-                Tier::Quick => 6_000,
-                Tier::Thorough => 80_000,
+                Tier::Quick => 288000,
+                Tier::Thorough => 2880000,
             }
     }
     fn rule(&self) -> &'static str {
